@@ -55,6 +55,48 @@ def _addr_eq(eng, st, args, dty, callee, m):
     return e if m.group(3) == "eq" else simp(z3.Not(e))
 
 
+IPADDR = EnumInfo("IpAddr", ["V4", "V6"])
+_S64 = z3.BitVecSort(64)
+ADDR_KIND = z3.Function("addr_text_kind", _S64, z3.BitVecSort(8))  # 0: "ip:port" socket address, 1: bare ip, other: neither
+ADDR_IS_V6 = z3.Function("addr_text_is_v6", _S64, z3.BoolSort())
+ADDR_V6 = z3.Function("addr_text_v6", _S64, z3.BitVecSort(128))
+ADDR_V4 = z3.Function("addr_text_v4", _S64, z3.BitVecSort(32))
+ADDR_PORT = z3.Function("addr_text_port", _S64, z3.BitVecSort(16))
+
+
+def ip_of_text(sid):
+    """the IpAddr an abstract address string denotes: uninterpreted functions of the string identity"""
+    v6 = ADDR_V6(sid)
+    v4 = ADDR_V4(sid)
+    a6 = VArr([simp(z3.Extract(127 - 8 * i, 120 - 8 * i, v6)) for i in range(16)])
+    a4 = VArr([simp(z3.Extract(31 - 8 * i, 24 - 8 * i, v4)) for i in range(4)])
+    return VEnum(IPADDR, z3.If(ADDR_IS_V6(sid), bv(1, 8), bv(0, 8)), {0: (a4,), 1: (a6,)})
+
+
+@summary(r"^core::str::<impl str>::parse::<(std::net::)?(SocketAddr|IpAddr)>$",
+         "str::parse::<SocketAddr|IpAddr>: outcome and address are uninterpreted functions of the abstract string (a text is a socket address, a bare ip, or neither)")
+def _parse_addr(eng, st, args, dty, callee, m):
+    s = deref(eng, st, args[0])
+    if not isinstance(s, VStr):
+        raise SymError(f"parse of a non-string {s!r}")
+    ip = ip_of_text(s.id)
+    if m.group(2) == "SocketAddr":
+        good = simp(ADDR_KIND(s.id) == bv(0, 8))
+        val = VStruct([ip, ADDR_PORT(s.id)], "SocketAddr")
+    else:
+        good = simp(ADDR_KIND(s.id) == bv(1, 8))
+        val = ip
+    return VEnum(RESULT, z3.If(good, bv(0, 8), bv(1, 8)), {0: (val,), 1: (VOpaque("AddrParseError"),)})
+
+
+@summary(r"^(std::net::)?SocketAddr::(ip|port)$", "SocketAddr::ip/port of a parsed address")
+def _sockaddr_ip(eng, st, args, dty, callee, m):
+    a = deref(eng, st, args[0])
+    if not (isinstance(a, VStruct) and a.ty == "SocketAddr"):
+        raise SymError(f"SocketAddr accessor on {a!r}")
+    return a.f[0] if m.group(2) == "ip" else a.f[1]
+
+
 # ------------------------------------------------------------------------------------- ranges / slices / arrays
 
 
